@@ -25,7 +25,8 @@ def extras(rep, tier, seed, known, r):
   b2, c2 = sibling_studies(rep, tier, seed, known, r)
   b3, c3 = sibling_deletions(rep, tier, seed, known, r)
   b4, c4 = illegal_matrix(rep, tier, seed, known, r)
-  return (b1 or b2 or b3 or b4), (c1 or c2 or c3 or c4)
+  b5, c5 = completion_matrix(rep, tier, seed, known, r)
+  return (b1 or b2 or b3 or b4 or b5), (c1 or c2 or c3 or c4 or c5)
 
 
 def illegal_matrix(rep, tier, seed, known, r):
@@ -67,6 +68,29 @@ def illegal_matrix(rep, tier, seed, known, r):
   seqgen.i = 0
   return svcrun.service_part(rep, 'C01', r, tier, known, monitors=[svcrun.wrap(svcmon.c01_step)], backends=('ram', 'sqlmem'),
                              nseq_quick=12, nseq_thorough=48, tag='illegal', seqgen=seqgen)
+
+
+def completion_matrix(rep, tier, seed, known, r):
+  """Systematic: every way of completing a trial - 0, 1 or 2 intermediate measurements reported before x a final measurement given
+  / not given x feasible / infeasible - then reads and a second completion: response and stored trial as the reference model says
+  (an infeasible completion takes no measurement over; a feasible one without any measurement is refused and changes nothing)."""
+  from harness import svcmon
+
+  def seqgen(rr):
+    i = seqgen.i
+    seqgen.i += 1
+    nmeas, given, infeasible = i % 3, (i // 3) % 2 == 0, (i // 6) % 2 == 1
+    seq = [('CreateStudy', 1, 1, False, 'SS_ACTIVE', [(1, True)]),
+           ('SuggestTrials', 1, 1, 1, 3, ('deliver', [rr.randrange(100) for _ in range(3)], [], []))]
+    tid = 1 + i % 3     # ids 1, 2, 3: the empty-but-present final measurement of the driver (tid % 3 == 0) takes part too
+    for j in range(nmeas):
+      seq.append(('AddTrialMeasurement', 1, 1, tid, [(1, j + 1)]))
+    seq.append(('CompleteTrial', 1, 1, tid, [(1, 9)] if given else [], infeasible))
+    seq += [('GetTrial', 1, 1, tid), ('ListOptimalTrials', 1, 1), ('CompleteTrial', 1, 1, tid, [(1, 5)], False), ('ListTrials', 1, 1)]
+    return seq
+  seqgen.i = 0
+  return svcrun.service_part(rep, 'C01', r, tier, known, monitors=[svcrun.wrap(svcmon.c01_step)], backends=('ram', 'sqlmem'),
+                             nseq_quick=12, nseq_thorough=36, tag='compl', seqgen=seqgen)
 
 
 def sibling_deletions(rep, tier, seed, known, r):
